@@ -20,6 +20,15 @@ CLAIMED = {
         'Completion.__init__ stores its arguments, name objects are pure; attribute completeness (f) and the sort '
         'order of Completion.complete are listed under not_decided until their contracts exist.',
         'contract-based deductive verification (PyVC VC generation from the real AST + z3/cvc5)', 'DESIGN.md 6/C04'),
+    'C07': (
+        'Deductive: calculate_to_path proved against the path-component spec (moved iff it is the renamed path or '
+        'below it; <= 2 renames, symbolic-bounded), get_renames = the given renames sorted, get_new_code = parso '
+        'refactor of exactly the mapped nodes, _calculate_rename / _try_relative_to arithmetic for all paths; '
+        'effect obligations over api/refactoring: no file-system mutator outside ChangedFile.apply / '
+        'Refactoring.apply, contents written before renames, newline="" on the write.',
+        'Trusted: pathlib.Path as normalised POSIX strings, parso Grammar.refactor, difflib, builtin sorted; '
+        'get_diff body and extract.py exception-escape obligations are listed as not decided until built.',
+        'contract-based deductive verification (PyVC) + AST effect obligations', 'DESIGN.md 6/C07'),
 }
 
 NOT_APPLICABLE = {
